@@ -11,8 +11,8 @@ use bytes::Bytes;
 use domain::base::charstr::CharStr;
 use domain::base::iana::Class;
 use domain::base::name::{Label, Name, ParsedName, ToName};
-use domain::base::rdata::{ComposeRecordData, ParseRecordData, UnknownRecordData};
-use domain::base::zonefile_fmt::{self, DisplayKind, FormatWriter, Formatter, ZonefileFmt};
+use domain::base::rdata::{ComposeRecordData, ParseRecordData, RecordData, UnknownRecordData};
+use domain::base::zonefile_fmt::{self, DisplayKind, Formatter, ZonefileFmt};
 use domain::base::{Record, Rtype, Ttl};
 use domain::rdata::ZoneRecordData;
 use domain::zonefile::inplace::{Entry, ScannedRecord, Zonefile};
@@ -130,9 +130,9 @@ fn gen_svc_params(r: &mut Rng) -> Vec<u8> {
                 m }
             2 => vec![],                       // no-default-alpn
             3 => ext_u16(r).to_be_bytes().to_vec(), // port
-            4 => r.bytes(4 * (1 + r.below(3) as usize)),  // ipv4hint
+            4 => { let n = 4 * (1 + r.below(3) as usize); r.bytes(n) } // ipv4hint
             5 => gen_blob(r, 40),              // ech
-            6 => r.bytes(16 * (1 + r.below(2) as usize)), // ipv6hint
+            6 => { let n = 16 * (1 + r.below(2) as usize); r.bytes(n) } // ipv6hint
             7 => { let n = 1 + r.below(20) as usize; octets(r, n) } // dohpath
             _ => gen_blob(r, 30),
         };
@@ -285,7 +285,8 @@ fn round_trip(rec: &Rec, tname: &str, k: char, kname: &str) -> Verdict {
     let mut first: Option<String> = None;
     for origin in [None, Some("origin.test.")] {
         let got = match read_text(&full, origin) {
-            Err(p) => return Verdict::Fail("panic_reader".into(), format!("type={} kind={} text={} panic={}", tname, kname, printable(&full), p)),
+            Err(p) => { let c = classify(rec, tname, kname); let c = if c.starts_with("roundtrip_") { "panic_reader".to_string() } else { format!("{}_reader_panic", c) };
+                return Verdict::Fail(c, format!("type={} kind={} text={} panic={}", tname, kname, printable(&full), p)) }
             Ok(g) => g,
         };
         let why = match got {
@@ -307,7 +308,36 @@ fn round_trip(rec: &Rec, tname: &str, k: char, kname: &str) -> Verdict {
             }
         }
     }
-    match first { None => Verdict::Ok, Some(d) => Verdict::Fail(format!("roundtrip_{}_{}", tname, kname), d) }
+    match first { None => Verdict::Ok, Some(d) => Verdict::Fail(classify(rec, tname, kname), d) }
+}
+
+/// An unquoted position where the writer produced an empty token (two
+/// separators in a row, or a separator right before the end / a parenthesis).
+fn has_empty_token(simple: &str) -> bool {
+    let b = simple.as_bytes();
+    let (mut i, mut q) = (0, false);
+    while i < b.len() {
+        match b[i] {
+            b'\\' => { i += 2; continue; }
+            b'"' => q = !q,
+            b' ' if !q => { if i + 1 >= b.len() || b[i + 1] == b' ' { return true; } }
+            _ => {}
+        }
+        i += 1;
+    }
+    false
+}
+
+/// Root-cause class of a failing record (specific word first, the per-type
+/// class as the fallback).
+fn classify(rec: &Rec, tname: &str, kname: &str) -> String {
+    let ow = rec.owner().as_slice();
+    if ow.len() > 1 && ow[1] == b'$' { return "owner_leading_dollar".into(); }
+    let rd = rdata_wire(rec.data());
+    if tname == "TXT" && rd.is_empty() { return "txt_no_strings".into(); }
+    if tname == "IPSECKEY" && rd.len() > 1 && rd[1] == 0 { return "ipseckey_gateway_none".into(); }
+    if let Ok(Ok(s)) = write_rec(rec, 's') { if has_empty_token(&s) { return format!("empty_field_{}", tname); } }
+    format!("roundtrip_{}_{}", tname, kname)
 }
 
 struct Case { owner: Vec<u8>, class: u16, ttl: u32, rt: u16, rdata: Vec<u8> }
@@ -656,7 +686,7 @@ fn main() {
                     e.1 += 1;
                     let cnt = minimised.entry(class.clone()).or_insert(0);
                     *cnt += 1;
-                    if *cnt <= 2 && !class.starts_with("panic") {
+                    if *cnt <= 2 && !class.contains("panic") {
                         let (m, d) = minimise(&case, tname, k, kname, &class);
                         out.check(false, &class, &case_line(&m, k), &format!("(minimised) {}", d));
                     } else {
